@@ -143,9 +143,19 @@ def r3(cx):
         return vs
     cx.check(const_eval(f, b, c.args[3]) == 1, "get_at enumerates tombstones too (a delete at or before T must answer 'nothing')", "get_at-tombstones", c.where(),
              "get_at asks the history cursor to hide tombstones: a deleted key reads as its older value")
-    cx.check(variant_of(c.args[4]) == {"None"}, "get_at does not pre-filter by timestamp (barriers newer than T must still be seen)", "get_at-ts-filter", c.where(),
-             "get_at passes a timestamp range to the history cursor: the cursor filters by timestamp before it applies hard-delete / replace barriers, so a barrier newer than T "
-             "is skipped and versions it erased are returned")
+    # A timestamp window handed to the history cursor is sound only because the cursor walks (without listing) the versions
+    # ABOVE the window and honours their barriers -- decided by C10.R1's step table since D28 was repaired; until then any
+    # window here lost the barriers newer than T.  What remains to be decided at this call: the window must not cut off
+    # versions the selection needs, i.e. it is `None` or exactly (0, T).
+    win_ok = variant_of(c.args[4]) == {"None"}
+    if not win_ok:
+        o4 = origin_of_operand(b, c.args[4], through_calls=False)
+        tparam = [l for l in range(1, b.argc + 1) if b.local_name(l) == "timestamp"] or [3]
+        hi_from_T = any(pl == tparam[0] for pl, _ in o4.params) and not o4.ops and not o4.calls
+        lows = [k for k in o4.consts if str(k.get("v")) not in ("0",)]
+        win_ok = hi_from_T and not lows
+    cx.check(win_ok, "get_at hands the history cursor no timestamp window, or exactly (0, T)", "get_at-ts-filter", c.where(),
+             "get_at passes the history cursor a timestamp window that is not (0, T): versions the selection needs (up to and including T) can be cut off")
     cx.check(variant_of(c.args[5]) == {"None"}, "get_at does not limit the number of versions", "get_at-limit", c.where())
     cx.check(variant_of(c.args[2]) == {"None"} and variant_of(c.args[1]) == {"Some"}, "get_at scans from the key (lower = Some(key), no upper bound; stops at the first other key)", "get_at-bounds", c.where())
     # selection predicate
